@@ -283,7 +283,7 @@ def check_C12(chk):
     jobs, nid = [], itertools.count(1)
     for S in ([4096, 8192, 16384] if thorough else [4096]):
         shapes = crash_shapes(S)
-        for observe in ("recv", "try", "select"):
+        for observe in ("recv", "try", "select", "timeout"):
             cases = []
             for npk, L in shapes.items():
                 for natt in ((0, 2) if thorough else (0 if npk in (1, 3) else 2,)):
@@ -316,7 +316,7 @@ def check_C12(chk):
     cov["correspondence_mismatches"] = len(bad)
     cov["rule"] = ("crash driver: forked sender sends one small message then a message of 1, 2, 3 or 6 packets (with/without attachments) and is killed "
                    "(SIGKILL raised by the shim) before its k-th tracked libc call, for EVERY k from 0 to one past its last call; 0 or 1 surviving "
-                   "sender handle in the parent; observed by blocking recv, try_recv and select; the child's progress is read from its trace, the "
+                   "sender handle in the parent; observed by blocking recv, try_recv, try_recv_timeout and select; the child's progress is read from its trace, the "
                    "Crash LTS is run on the corresponding schedule and its deliveries compared; non-trivial = killed after the first fragment, before send returned")
     cov["input_distribution"] = {"killed_mid_message": cov["distinct_nontrivial"], "shapes": sorted({it["case"]["npk"] for it in items}),
                                  "observers": sorted({it["case"]["observe"] for it in items})}
